@@ -119,4 +119,72 @@ theorem height_moves_by_one (p : Params) (s s' : State) (b : Block) (root : Hash
   · subst e; exact Or.inl rfl
   · subst e; exact Or.inr hh
 
+/-- **Chain invariant over all histories** (first start, `AddBlock`, `ExecuteBlock`+`SubmitBlock`, `AddHeader`,
+restarts, crashes inside a submission that passes the checks, in any order and number; hash collisions between
+different blocks / headers excluded by `NoColl` / `NoCollH`): every height up to the tip holds exactly one block,
+found by height and by hash; each block names the hash of the block one below as its parent and is strictly later;
+the block accumulator holds the genesis parent followed by the hashes of blocks 0 … tip−1; nothing but these blocks is
+stored; cached headers agree with stored blocks. -/
+theorem chain_inv (p : Params) (g : Block) (hg : g.header.height = 0) (s : State) (h : ReachV p g s) :
+    s.dur.blocks.hashAt s.mem.currHeight = some s.mem.currHash ∧
+    (∀ i, i ≤ s.mem.currHeight → ∃ blk, s.dur.blocks.hashAt i = some blk.header.hash ∧
+      s.dur.blocks.blockAt blk.header.hash = some blk ∧ blk.header.height = i) ∧
+    (∀ i bi bj, i < s.mem.currHeight →
+      s.dur.blocks.hashAt i = some bi.header.hash → s.dur.blocks.blockAt bi.header.hash = some bi →
+      s.dur.blocks.hashAt (i + 1) = some bj.header.hash → s.dur.blocks.blockAt bj.header.hash = some bj →
+      bj.header.prev = bi.header.hash ∧ bi.header.timestamp < bj.header.timestamp) ∧
+    s.mem.blockTree = g.header.prev :: (List.range s.mem.currHeight).map (fun i => (s.dur.blocks.hashAt i).getD []) ∧
+    (∀ x blk, s.dur.blocks.blockAt x = some blk → blk.header.hash = x ∧ blk.header.height ≤ s.mem.currHeight) := by
+  have hc := reachV_chain p g hg s h
+  exact ⟨hc.tip, hc.stored, hc.linked, hc.acc, hc.bounded⟩
+
+/-- **The block root of a committed block is the accumulator root over all earlier block hashes** (genesis parent,
+then the hashes of blocks 0 … height−1 as the block store lists them), on every ledger reached by such a history. -/
+theorem committed_root_over_all_earlier_hashes (p : Params) (g : Block) (hg : g.header.height = 0) (s s' : State)
+    (hr : ReachV p g s) (b : Block) (root : Hash) (h : addBlock p s b root = .ok s')
+    (hc : s'.mem.currHeight ≠ s.mem.currHeight) :
+    b.header.blockRoot =
+      treeRoot p (g.header.prev :: (List.range b.header.height).map (fun i => (s.dur.blocks.hashAt i).getD [])) := by
+  obtain ⟨hh, -, -, hroot, -⟩ := commit_only_successor p s s' b root h hc
+  have hch := reachV_chain p g hg s hr
+  rw [hroot, hch.acc, hh, List.range_succ, List.map_append]
+  simp only [List.cons_append, List.map_cons, List.map_nil, hch.tip, Option.getD_some]
+
+/-! ### Non-vacuity: a reachable two-block ledger; the honest successor is committed, a block naming another
+parent, an equal timestamp or a wrong root is refused, re-submission is a no-op -/
+section Example
+
+def p2 : Params :=
+  { H := fun b => b.take 4, verify := fun k _ sig => sig == [k.toUInt8], decode := fun _ => true,
+    exec := fun _ b => { writeSet := [([b.header.height.toUInt8], [1])], changeHash := [b.header.height.toUInt8],
+                         crossHashes := [], notifies := [] },
+    netId := 2, batch := 2000, eventLog := false }
+def g2 : Block := { header := { height := 0, hash := [7], prev := zeroHash, timestamp := 10, blockRoot := [], bookkeepers := [],
+                                sigs := [], newCfg := some [0, 1, 2, 3], lastCfg := 0 }, txs := [] }
+def s2 : State := match initLedger p2 g2 with | .ok s => s | .error _ => ⟨Durable.empty, emptyMem⟩
+def blk2 (prev : Hash) (ts : Nat) (root : Hash) : Block :=
+  { header := { height := 1, hash := [8], prev := prev, timestamp := ts, blockRoot := root, bookkeepers := [2], sigs := [[2]],
+                newCfg := none, lastCfg := 0 }, txs := [⟨[5], [1]⟩] }
+def good2 : Block := blk2 [7] 11 (treeRoot p2 (s2.mem.blockTree ++ [[7]]))
+def verdict2 : Except Err State → Option Err × Nat
+  | .ok s => (none, s.mem.currHeight)
+  | .error e => (some e, 0)
+
+private theorem init2_ok : initLedger p2 g2 = .ok s2 := by
+  have h : (verdict2 (initLedger p2 g2)).1 = none := by decide
+  unfold s2
+  cases h' : initLedger p2 g2 with
+  | ok s => rfl
+  | error e => rw [h'] at h; cases h
+
+example : ReachV p2 g2 s2 ∧
+    verdict2 (addBlock p2 s2 good2 (executeBlock p2 s2 good2).2) = (none, 1) ∧
+    verdict2 (addBlock p2 s2 (blk2 [9] 11 good2.header.blockRoot) (executeBlock p2 s2 good2).2) = (some .noprev, 0) ∧
+    verdict2 (addBlock p2 s2 (blk2 [7] 10 good2.header.blockRoot) (executeBlock p2 s2 good2).2) = (some .timestamp, 0) ∧
+    verdict2 (addBlock p2 s2 (blk2 [7] 11 [1, 2, 3]) (executeBlock p2 s2 good2).2) = (some .blockroot, 0) ∧
+    verdict2 (addBlock p2 s2 g2 []) = (none, 0) :=
+  ⟨ReachV.init init2_ok, by decide, by decide, by decide, by decide, by decide⟩
+
+end Example
+
 end Poly.Props.C13
